@@ -79,6 +79,11 @@ def run(tier, seed):
                     ops.insert(rng.randrange(len(ops) + 1), ["antichain", wf])
                 ops.append(["decompose"])
                 ops.append(["bottleneck"])
+                # the helper the greedy shortcut uses to judge constraint coverage: edges of a sequence found on one path
+                if u["proutes"]:
+                    seq = [list(rng.choice(u["edges"])) for _ in range(rng.randint(1, 4))]
+                    lens = rng.choice([[], [[e[0], e[1], rng.choice([1, 2, 5])] for e in u["edges"] if rng.random() < 0.7]])
+                    ops.append(["max_occurrence", seq, [list(p) for p in u["proutes"]], lens])
             st = [rng.choice(u["nodes"])] if rng.random() < 0.3 else []
             if kind == "dag" and st:
                 ops = [o for o in ops if o[0] not in ("decompose", "bottleneck")]
@@ -139,6 +144,8 @@ def run(tier, seed):
                 seen.add(key)
                 if ev["op"] == "antichain":
                     res.count_class("antichain_queries")
+                if ev["op"] == "max_occurrence":
+                    res.count_class("max_occurrence_queries")
                 if ev["op"] == "decompose":
                     res.count_class("peelings")
     if nver != len(ok):
